@@ -74,7 +74,10 @@ func (c *coalesceOperator) Next(ctx context.Context) ([]model.StepVector, error)
 		return nil, err
 	}
 
-	var out []model.StepVector = nil
+	// The batches of the children are merged in the order of the children, not in the order in
+	// which they happen to arrive: the order of the samples within a step must not depend on
+	// scheduling (operators such as topk break ties by it).
+	var batches = make([][]model.StepVector, len(c.operators))
 	var errChan = make(errorChan, len(c.operators))
 	for idx, o := range c.operators {
 		c.wg.Add(1)
@@ -86,36 +89,13 @@ func (c *coalesceOperator) Next(ctx context.Context) ([]model.StepVector, error)
 				errChan <- err
 				return
 			}
-			if in == nil {
-				return
-			}
 
 			for _, vector := range in {
 				for i := range vector.SampleIDs {
 					vector.SampleIDs[i] += c.sampleOffsets[opIdx]
 				}
 			}
-
-			c.mu.Lock()
-			defer c.mu.Unlock()
-
-			if len(in) > 0 && out == nil {
-				out = c.pool.GetVectorBatch()
-				for i := 0; i < len(in); i++ {
-					out = append(out, c.pool.GetStepVector(in[i].T))
-				}
-			}
-
-			for i := 0; i < len(in); i++ {
-				if len(in[i].Samples) > 0 {
-					out[i].T = in[i].T
-				}
-
-				out[i].Samples = append(out[i].Samples, in[i].Samples...)
-				out[i].SampleIDs = append(out[i].SampleIDs, in[i].SampleIDs...)
-				o.GetPool().PutStepVector(in[i])
-			}
-			o.GetPool().PutVectors(in)
+			batches[opIdx] = in
 		}(idx, o)
 	}
 	c.wg.Wait()
@@ -123,6 +103,30 @@ func (c *coalesceOperator) Next(ctx context.Context) ([]model.StepVector, error)
 
 	if err := errChan.getError(); err != nil {
 		return nil, err
+	}
+
+	var out []model.StepVector = nil
+	for opIdx, in := range batches {
+		if in == nil {
+			continue
+		}
+		if len(in) > 0 && out == nil {
+			out = c.pool.GetVectorBatch()
+			for i := 0; i < len(in); i++ {
+				out = append(out, c.pool.GetStepVector(in[i].T))
+			}
+		}
+
+		for i := 0; i < len(in); i++ {
+			if len(in[i].Samples) > 0 {
+				out[i].T = in[i].T
+			}
+
+			out[i].Samples = append(out[i].Samples, in[i].Samples...)
+			out[i].SampleIDs = append(out[i].SampleIDs, in[i].SampleIDs...)
+			c.operators[opIdx].GetPool().PutStepVector(in[i])
+		}
+		c.operators[opIdx].GetPool().PutVectors(in)
 	}
 
 	if out == nil {
